@@ -18,7 +18,9 @@ import (
 // it takes the real token apart and replaces the real id by the placeholder.
 // Returns the token ("" on error) and the canonical implementation line.
 func encodeOp(c *Ctx, kind string, claims jwt.Claims, kp nkeys.KeyPair, nontrivial bool) (string, error) {
-	pre, merr := json.Marshal(claims) // the claims object before Encode, as the model receives it
+	pre, merr := json.Marshal(claims) // for replays only
+	_ = merr
+	preDump := dumpAny(claims) // the claims object before Encode, exactly as the model receives it
 	sub := claims.Claims().Subject
 	_ = sub
 	urlok := "1"
@@ -57,14 +59,11 @@ func encodeOp(c *Ctx, kind string, claims jwt.Claims, kp nkeys.KeyPair, nontrivi
 		if id == want && strings.Count(ptext, `"jti":"`+id+`"`) >= 1 {
 			ptext = strings.Replace(ptext, `"jti":"`+id+`"`, `"jti":"@@JTI@@"`, 1)
 		}
-		impl = "ok " + hx(string(hb)) + " " + hx(ptext) + " " + hx(string(preimage))
-	}
-	if merr != nil {
-		// the claims cannot even be marshalled (unknown export type …): Encode must fail too; no model op
-		c.Eval("encode-unmarshalable", false)
-		return tok, err
+		after := dumpAny(claims)
+		after = strings.Replace(after, hx("jti")+":s"+hx(id), hx("jti")+":s"+hx("@@JTI@@"), 1)
+		impl = "ok " + hx(string(hb)) + " " + hx(ptext) + " " + hx(string(preimage)) + " " + after
 	}
 	now := claims.Claims().IssuedAt
-	c.Op(impl, nontrivial && err == nil, "encode", kind, hx(string(pre)), fmt.Sprint(now), hx(pubOf(kp)), urlok)
+	c.Op(impl, nontrivial && err == nil, "encode", kind, hx(preDump), fmt.Sprint(now), hx(pubOf(kp)), urlok)
 	return tok, err
 }
